@@ -1133,6 +1133,27 @@ func ruleLoadFilter(c *Ctx, r *R) {
 			return true
 		})
 		r.check(header, "constraint header", c.Pos(cf), "blank lines and comments before the constraint are skipped", "checkConstraint only looks at the first line of the file: a //go:build line that follows a copyright/licence comment (allowed by Go) is ignored, so a file excluded for goat is loaded — its init runs, or it raises a false `multiple packages` conflict")
+		// the first line of code ends the header: the scan over the lines is left with "build
+		// this file" there, it does not go on to a //go:build line further down (in a raw string,
+		// in a comment that quotes one)
+		codeEnds := false
+		ast.Inspect(cf.Body, func(n ast.Node) bool {
+			rs, ok := n.(*ast.RangeStmt)
+			if !ok {
+				return true
+			}
+			ast.Inspect(rs.Body, func(m ast.Node) bool {
+				if _, isLit := m.(*ast.FuncLit); isLit {
+					return false
+				}
+				if ret, ok := m.(*ast.ReturnStmt); ok && len(ret.Results) == 2 && isIdent(ret.Results[0], "true") && isIdent(ret.Results[1], "nil") {
+					codeEnds = true
+				}
+				return true
+			})
+			return true
+		})
+		r.check(codeEnds, "code ends the header", c.Pos(cf), "the scan stops with `build` at the first line of code", "checkConstraint keeps scanning after the first line of code: a line that starts with //go:build below the package clause (a code-generator template in a raw string, a quoted constraint) is evaluated as the file's constraint — the file is silently dropped, its top-level code and init never run")
 		// what follows the end of a block comment on the same line is looked at again (code
 		// there ends the header; a later //go:build in the body must not exclude the file)
 		afterBlock := false
